@@ -9,7 +9,7 @@
    4).  Check/C19.v ties the models to /repo on every run. *)
 From Verif Require Import Base.GoSem Css.Counters Css.CounterScopes Css.CounterSpec Css.CounterScopesSpec
   Css.CounterAbs Css.CounterProofs Css.CounterTableProofs Css.CounterExtendsProofs Css.CounterSpecFacts Css.CounterTheorems
-  Css.CounterScopesProofs.
+  Css.CounterScopesProofs Css.CounterScopesMore.
 From Coq Require Import List ZArith NArith Bool.
 Import ListNotations.
 Open Scope Z_scope.
@@ -280,3 +280,27 @@ Example C19_ex_pseudo_list_item :
           OMarker m42; OBefore [120]; OAfter [52;50]]%N.
 Proof. do 4 eexists. vm_compute. repeat split. Qed.
 
+
+(* ---- final round: laws of clampCounter (build.go:893-900), for every integer ---- *)
+Theorem C19_clamp_counter_is_spec_clamp : forall v : Z, clamp_counter v = clamp v.
+Proof. exact clamp_counter_is_clamp. Qed.
+Print Assumptions C19_clamp_counter_is_spec_clamp.
+
+Theorem C19_clamp_counter_int32 : forall v : Z, (- 2 ^ 31 <= clamp_counter v <= 2 ^ 31 - 1)%Z.
+Proof. exact clamp_counter_bounds. Qed.
+Print Assumptions C19_clamp_counter_int32.
+
+Theorem C19_clamp_counter_idempotent : forall v : Z, clamp_counter (clamp_counter v) = clamp_counter v.
+Proof. exact clamp_counter_idem. Qed.
+Print Assumptions C19_clamp_counter_idempotent.
+
+Theorem C19_clamp_counter_monotone : forall a b : Z, (a <= b)%Z -> (clamp_counter a <= clamp_counter b)%Z.
+Proof. exact clamp_counter_mono. Qed.
+Print Assumptions C19_clamp_counter_monotone.
+
+Theorem C19_increment_step_no_overflow : forall old v : Z,
+  (- 2 ^ 31 <= old <= 2 ^ 31 - 1)%Z ->
+  (- 2 ^ 32 <= old + clamp_counter v <= 2 ^ 32 - 2)%Z /\
+  (- 2 ^ 31 <= clamp_counter (old + clamp_counter v) <= 2 ^ 31 - 1)%Z.
+Proof. exact increment_step_bounds. Qed.
+Print Assumptions C19_increment_step_no_overflow.
